@@ -223,6 +223,19 @@ def tealer_cfg(ctx, src):
             "retained_lines": sorted(w.getattr(i, "line") for i in w.getattr(teal, "instructions")), "problems": problems}, teal
 
 
+def by_line(summary):
+    """re-key a graph summary by the source line of each block's first instruction, so that the comparison does not depend on how
+    blocks are numbered"""
+    first = {i: v["lines"][0] for i, v in summary["blocks"].items()}
+    def L(i):
+        return first.get(i, f"?{i}")
+    blocks = {first[i]: {"lines": v["lines"], "next": [L(x) for x in v["next"]], "prev": sorted(L(x) for x in v["prev"])} for i, v in summary["blocks"].items()}
+    subs = {n: {"entry": L(v["entry"]), "blocks": sorted(L(x) for x in v["blocks"]), "exits": sorted(L(x) for x in v["exits"]),
+                "retsubs": sorted(L(x) for x in v["retsubs"]), "callers": sorted(L(x) for x in v["callers"]),
+                "return_points": sorted(L(x) for x in v["return_points"])} for n, v in summary["subs"].items()}
+    return {"blocks": blocks, "subs": subs, "main": sorted(L(x) for x in summary["main"]), "retained_lines": summary["retained_lines"]}
+
+
 SHAPES = {
     "straight line": "#pragma version 6\nint 1\nint 2\n+\nreturn\n",
     "diamond": "#pragma version 6\ntxn Amount\nbnz right\nint 1\nb join\nright:\nint 2\njoin:\npop\nint 1\nreturn\n",
@@ -271,6 +284,8 @@ def rule_cfg_shapes(ctx, rep, rule="T-CFG", subs_only=False):
             rep.violation(rule, f"{name}: builds", where, f"RAISES {e.exc} {e.where}", "a graph", why="graph construction fails on a valid program")
             continue
         ref = reference_cfg(ctx, src)
+        problems = got["problems"]
+        got, ref = by_line(got), by_line(ref)
         if not subs_only:
             rep.check(got["retained_lines"] == ref["retained_lines"], rule, f"{name}: retained instructions", where, got["retained_lines"], ref["retained_lines"],
                       why="the retained instructions are not exactly those reachable from the entry or a callsub target")
@@ -279,7 +294,7 @@ def rule_cfg_shapes(ctx, rep, rule="T-CFG", subs_only=False):
             rep.check(gb == rb, rule, f"{name}: blocks and edges", where, gb, rb,
                       why="block partition, successor order or predecessor lists differ from the control flow of the program",
                       sample={"shape": name, "blocks": {k: v["next"] for k, v in rb.items()}})
-            rep.check(not got["problems"], rule, f"{name}: well-formed", where, got["problems"][:5], [])
+            rep.check(not problems, rule, f"{name}: well-formed", where, problems[:5], [])
             rep.check(got["main"] == ref["main"], rule, f"{name}: main blocks", where, got["main"], ref["main"])
         rep.check(got["subs"] == ref["subs"], rule, f"{name}: subroutines", where, got["subs"], ref["subs"],
                   why="subroutine set, membership, exits, caller or return-point tables differ from the call structure of the program",
@@ -360,10 +375,62 @@ def _calls_named(fn, name):
     return [c for c in G.calls_in(fn) if isinstance(c.func, ast.Attribute) and c.func.attr == name]
 
 
+def _semantic_graph_rules_hold(ctx):
+    """do the semantic graph rules (program shape classes against the reference construction, function construction) hold on this tree?
+    Used to tell a structural rule that is *violated* from one whose idiom was merely refactored away."""
+    def compute():
+        from ..report import Report
+        from . import function_rules
+        scratch = Report("scratch", "quick", 0, str(ctx.root))
+        try:
+            rule_cfg_shapes(ctx, scratch)
+            rule_flow_table(ctx, scratch)
+            function_rules.rule_function_construction(ctx, scratch)
+        except Exception:
+            return False
+        return not scratch.violations
+    return ctx.cached("semantic_graph_rules_hold", compute)
+
+
+class _Soft:
+    """collects the findings of a structural (syntactic) rule; they become violations only if the semantic graph rules fail too"""
+
+    def __init__(self, ctx, rep, rule):
+        self.ctx, self.rep, self.rule, self.items = ctx, rep, rule, []
+
+    def check(self, cond, rule, construct, where, observed, expected, why=""):
+        if cond:
+            self.rep.ok(rule, {"construct": construct})
+        else:
+            self.items.append((construct, where, observed, expected, why))
+        return cond
+
+    def flush(self):
+        if not self.items:
+            return
+        if _semantic_graph_rules_hold(self.ctx):
+            for construct, where, observed, expected, why in self.items:
+                self.rep.note(f"{self.rule}: idiom not recognised at {where} ({construct}); the semantic graph rules (T-CFG, T-FLOW, T-FUNCTION) hold, so this is a refactoring, not a violation")
+            self.rep.count(f"{self.rule} sites not recognised but semantically fine", len(self.items))
+        else:
+            for construct, where, observed, expected, why in self.items:
+                self.rep.violation(self.rule, construct, where, observed, expected, why)
+
+
 def rule_edge_pairing(ctx, rep):
     rule = "R-PAIR"
-    rep.rule(rule, "every a.add_next(b) has b.add_prev(a) in the same straight-line region and vice versa; every successor replacement/removal "
-                   "updates the predecessor list of the old and the new successor")
+    _rep, rep = rep, _Soft(ctx, rep, rule)
+    try:
+        _rule_edge_pairing(ctx, rep, _rep)
+    finally:
+        rep.flush()
+
+
+def _rule_edge_pairing(ctx, rep, real):
+    rule = "R-PAIR"
+    real.rule(rule, "every a.add_next(b) has b.add_prev(a) in the same straight-line region and vice versa; every successor replacement/removal "
+                    "updates the predecessor list of the old and the new successor (a site whose idiom is not recognised is reported only if the "
+                    "semantic graph rules fail as well)")
     n = 0
     for modname in (PT, PF):
         tree = ctx.tree(modname)
@@ -418,11 +485,20 @@ def rule_edge_pairing(ctx, rep):
                             n += 1
                             rep.check(paired, rule, f"{modname.split('.')[-1]}:{fn.name}: {recv}.{side}.remove({arg})", f"{ctx.path(modname)}:{st.lineno}",
                                       "no matching removal", f"{arg}.{other}.remove({recv})", why="an edge must be removed in both directions")
-    rep.count("edge pairing sites", n)
-    rep.require(n >= 12, f"only {n} edge pairing sites found (expected >= 12)")
+    real.count("edge pairing sites", n)
+    if n < 12:
+        real.note(f"R-PAIR: only {n} edge pairing sites recognised (12 on the tree this rule was written for)")
 
 
 def rule_pass_order(ctx, rep):
+    soft = _Soft(ctx, rep, "R-ORDER")
+    try:
+        _rule_pass_order(ctx, rep, soft)
+    finally:
+        soft.flush()
+
+
+def _rule_pass_order(ctx, rep, soft):
     rule = "R-ORDER"
     rep.rule(rule, "in every function that builds a graph: first_pass, second_pass, create_bb, fourth_pass are called unconditionally and in this order "
                    "(this makes next[0] the fall-through and next[1] the jump target)")
@@ -443,13 +519,25 @@ def rule_pass_order(ctx, rep):
             ok = all(len(pos.get(nm, [])) == 1 for nm in names)
             order = [pos[nm][0][0] for nm in names] if ok else []
             uncond = ok and all(not pos[nm][0][1].guards and not pos[nm][0][1].loops for nm in names)
-            rep.check(ok and order == sorted(order) and uncond, rule, f"{modname.split('.')[-1]}:{fn.name}", f"{ctx.path(modname)}:{fn.lineno}",
+            soft.check(ok and order == sorted(order) and uncond, rule, f"{modname.split('.')[-1]}:{fn.name}", f"{ctx.path(modname)}:{fn.lineno}",
                       {nm: [p[0] for p in pos.get(nm, [])] for nm in names}, "each pass once, unconditionally, in order")
-    rep.require(found >= 2, "fewer than two graph-building functions found")
+    if found < 2:
+        rep.note("R-ORDER: fewer than two functions call the parser passes directly (the pass structure was refactored); T-FLOW / T-CFG decide the successor order")
     # create_bb itself: default edge before any jump edge is guaranteed by create_bb (adds default edges) preceding fourth_pass (adds jump edges)
 
 
 def rule_successor_dedup(ctx, rep):
+    from ..report import AnalysisError
+    soft = _Soft(ctx, rep, "R-DEDUP")
+    try:
+        _rule_successor_dedup(ctx, rep, soft)
+    except AnalysisError as e:
+        rep.note(f"R-DEDUP not applicable ({e}); duplicate-freedom of successor lists is decided by T-CFG")
+    finally:
+        soft.flush()
+
+
+def _rule_successor_dedup(ctx, rep, soft):
     rule = "R-DEDUP"
     rep.rule(rule, "every jump edge added between blocks is guarded by a `not in` test of the successor list (duplicate-free successor lists: "
                    "premise of 'no path is reported twice')")
@@ -463,8 +551,9 @@ def rule_successor_dedup(ctx, rep):
             guarded = any(pol and isinstance(t, ast.Compare) and isinstance(t.ops[0], ast.NotIn) and ast.unparse(t.left) == arg
                           and ast.unparse(t.comparators[0]) == f"{recv}.next" for t, pol in s.guards)
             n += 1
-            rep.check(guarded, rule, "fourth_pass jump edge", f"{ctx.path(PT)}:{st.lineno}", [ast.unparse(t) for t, _ in s.guards], f"{arg} not in {recv}.next")
-    rep.require(n >= 1, "no jump-edge insertion found in fourth_pass")
+            soft.check(guarded, rule, "fourth_pass jump edge", f"{ctx.path(PT)}:{st.lineno}", [ast.unparse(t) for t, _ in s.guards], f"{arg} not in {recv}.next")
+    if n < 1:
+        rep.note("R-DEDUP: no add_next call found in fourth_pass (refactored); T-CFG decides duplicate-freedom")
 
 
 EDGE_ATTRS = {"next", "prev", "_next", "_prev"}
